@@ -1047,3 +1047,263 @@ example : balancedSkip 20 1 .unknown [32, 34, 125, 34, 32, 35, 125, 10, 32, 98, 
   decide +kernel
 
 end Jomini.TextReader
+
+namespace Jomini.TextReader
+open Jomini Jomini.TextReader.Spec Jomini.TextReader.Swar
+
+/-! ### skip_unquoted_value -/
+
+def shiftU (k : Nat) : SkipU → SkipU
+  | .open_ p => .open_ (p + k)
+  | x => x
+
+theorem skipUScan_shift (l : Bytes) (i k : Nat) : skipUScan l (i + k) = shiftU k (skipUScan l i) := by
+  induction l generalizing i with
+  | nil => simp [skipUScan, shiftU]
+  | cons c l ih =>
+    simp only [skipUScan]
+    split; · simp [shiftU]
+    split
+    · rw [show i + k + 1 = (i + 1) + k by omega]; exact ih (i + 1)
+    · simp [shiftU]
+
+theorem skipUScan_append (w b : Bytes) (i : Nat) :
+    skipUScan (w ++ b) i = match skipUScan w i with | .windowEnd => skipUScan b (i + w.length) | x => x := by
+  induction w generalizing i with
+  | nil => simp [skipUScan]
+  | cons c w ih =>
+    simp only [List.cons_append, skipUScan]
+    split; · rfl
+    split
+    · rw [ih (i + 1)]; simp; cases skipUScan w (i + 1) <;> simp <;> congr 1 <;> omega
+    · rfl
+
+theorem skipUScan_open_bounds {l : Bytes} {i p : Nat} (h : skipUScan l i = .open_ p) :
+    i ≤ p ∧ p < i + l.length ∧ l[p - i]? = some 123 ∧ ∀ x ∈ l.take (p - i), isBlank x = true := by
+  induction l generalizing i with
+  | nil => simp [skipUScan] at h
+  | cons c l ih =>
+    simp only [skipUScan] at h
+    split at h
+    · rename_i hc
+      simp only [SkipU.open_.injEq] at h; subst h
+      simp; exact eq_of_beq hc
+    split at h
+    · rename_i _ hb
+      obtain ⟨h1, h2, h3, h4⟩ := ih h
+      refine ⟨by omega, by simp; omega, ?_, ?_⟩
+      · have : p - i = (p - (i + 1)) + 1 := by omega
+        rw [this]; simpa using h3
+      · have : p - i = (p - (i + 1)) + 1 := by omega
+        rw [this]
+        intro x hx; simp at hx
+        rcases hx with rfl | hx
+        · exact hb
+        · exact h4 x hx
+    · simp at h
+
+theorem skipUScan_windowEnd_blank {l : Bytes} {i : Nat} (hs : skipUScan l i = .windowEnd) : ∀ y ∈ l, isBlank y = true := by
+  induction l generalizing i with
+  | nil => simp
+  | cons c w ihw =>
+    simp only [skipUScan] at hs
+    split at hs
+    · simp at hs
+    split at hs
+    · rename_i _ hb
+      intro y hy; simp at hy; rcases hy with rfl | hy
+      · exact hb
+      · exact ihw hs y hy
+    · simp at hs
+
+/-- the `\\n\\t\\t\\t` word test of `skip_unquoted_value` only skips four blanks: one iteration is the plain blank scan of
+the window -/
+theorem skipUnquotedValue_unfold (f : Nat) (r : Reader) :
+    skipUnquotedValue (f + 1) r =
+      match skipUScan r.win 0 with
+      | .open_ p =>
+        match advance r (p + 1) with
+        | some r' => skipContainer (f + 1) r'
+        | none => .panic
+      | .stop => .ok r ()
+      | .windowEnd =>
+        match advance r r.win.length with
+        | none => .panic
+        | some r0 =>
+          match fillBuf r0 with
+          | (r1, .ok 0) => .ok r1 ()
+          | (r1, .ok _) => skipUnquotedValue f r1
+          | (r1, .full) => .err r1 .full
+          | (r1, .io) => .err r1 .io := by
+  rw [skipUnquotedValue]
+  rcases hw : r.win with _ | ⟨b0, _ | ⟨b1, _ | ⟨b2, _ | ⟨b3, tl⟩⟩⟩⟩
+  · rfl
+  · rfl
+  · rfl
+  · rfl
+  · simp only
+    by_cases h : (b0 == 10 && b1 == 9 && b2 == 9 && b3 == 9) = true
+    · simp only [h, if_true]
+      simp only [Bool.and_eq_true, beq_iff_eq] at h
+      obtain ⟨⟨⟨rfl, rfl⟩, rfl⟩, rfl⟩ := h
+      have e : skipUScan (10 :: 9 :: 9 :: 9 :: tl) 0 = skipUScan tl 4 := by simp [skipUScan, isBlank]
+      rw [e]; rfl
+    · simp only [h, Bool.false_eq_true, if_false]; rfl
+
+/-- what `skip_unquoted_value` must do on the remaining input `d` -/
+def SkipUOut (res : Res Unit) (pos : Nat) (bom : Bom) (d : Bytes) (n : Nat) : Prop :=
+  match skipUScan d 0 with
+  | .open_ p => ∀ q, balancedSkip n (pos + p + 1) bom (d.drop (p + 1)) 1 = some q →
+      ∃ r', res = .ok r' () ∧ Rel r' (pos + p + 1 + q) bom (d.drop (p + 1 + q))
+  | .stop => ∃ r' j, res = .ok r' () ∧ Rel r' (pos + j) bom (d.drop j) ∧ ∀ x ∈ d.take j, isBlank x = true
+  | .windowEnd => ∃ r', res = .ok r' () ∧ Rel r' (pos + d.length) bom []
+
+theorem skipU_spec (m : Nat) : ∀ (r : Reader) (pos : Nat) (bom : Bom) (d : Bytes) (n fuel : Nat),
+    r.src.rest.length ≤ m → Rel r pos bom d → NoFaults r.src.sched → (r.cap = 0 ∨ 3 ≤ r.cap) → m + 1 ≤ fuel →
+    SkipUOut (skipUnquotedValue fuel r) pos bom d n := by
+  induction m with
+  | zero =>
+    intro r pos bom d n fuel hm hrel hnf hcap hfuel
+    obtain ⟨f, rfl⟩ : ∃ f, fuel = f + 1 := ⟨fuel - 1, by omega⟩
+    have he : r.src.rest = [] := List.eq_nil_of_length_eq_zero (by omega)
+    have hd : d = r.win := by rw [← hrel.data, he]; simp
+    rw [skipUnquotedValue_unfold]
+    unfold SkipUOut
+    rw [hd]
+    cases hs : skipUScan r.win 0 with
+    | open_ p =>
+      simp only
+      intro q hq
+      obtain ⟨h1, h2, _, _⟩ := skipUScan_open_bounds hs
+      obtain ⟨r', ha, hrel', _, hs', hc'⟩ := hrel.advance (p + 1) (by omega)
+      simp only [ha]
+      rw [hd] at hrel'
+      have := C09_text_skip r' (pos + (p + 1)) bom _ n q (f + 1) hrel' (by rw [hs']; exact hnf) (by rw [hc']; exact hcap)
+        (by rw [hs', he]; simp) (by rw [show pos + (p + 1) = pos + p + 1 by omega]; exact hq)
+      obtain ⟨r'', h3, h4⟩ := this
+      refine ⟨r'', h3, ?_⟩
+      rw [show pos + p + 1 + q = pos + (p + 1) + q by omega, ← List.drop_drop]
+      exact h4
+    | stop =>
+      simp only
+      exact ⟨r, 0, rfl, by simpa [hd] using hrel, by simp⟩
+    | windowEnd =>
+      simp only
+      obtain ⟨r0, ha, hrel0, hw0, hs0, hc0⟩ := hrel.advance r.win.length (Nat.le_refl _)
+      simp only [ha]
+      have hw0' : r0.win = [] := by rw [hw0]; simp
+      rcases hrel0.fill with ⟨rio, hf, _, hnn⟩ | ⟨hf, h1, h2⟩ | ⟨_, r1, hf, hrel1, _⟩ | ⟨hne, _⟩
+      · exact absurd (by rw [hs0]; exact hnf) hnn
+      · exfalso; rw [hw0'] at h2; simp at h2; exact h1 h2
+      · rw [hf]; simp only
+        refine ⟨r1, rfl, ?_⟩
+        rw [hd] at hrel1; simpa using hrel1
+      · exact absurd (by rw [hs0]; exact he) hne
+  | succ m ih =>
+    intro r pos bom d n fuel hm hrel hnf hcap hfuel
+    obtain ⟨f, rfl⟩ : ∃ f, fuel = f + 1 := ⟨fuel - 1, by omega⟩
+    have hd : d = r.win ++ r.src.rest := hrel.data.symm
+    have happ := skipUScan_append r.win r.src.rest 0
+    rw [← hd] at happ
+    rw [skipUnquotedValue_unfold]
+    unfold SkipUOut
+    cases hs : skipUScan r.win 0 with
+    | open_ p =>
+      rw [hs] at happ; simp only at happ; rw [happ]
+      simp only
+      intro q hq
+      obtain ⟨h1, h2, _, _⟩ := skipUScan_open_bounds hs
+      obtain ⟨r', ha, hrel', _, hs', hc'⟩ := hrel.advance (p + 1) (by omega)
+      simp only [ha]
+      have := C09_text_skip r' (pos + (p + 1)) bom _ n q (f + 1) hrel' (by rw [hs']; exact hnf) (by rw [hc']; exact hcap)
+        (by rw [hs']; omega) (by rw [show pos + (p + 1) = pos + p + 1 by omega]; exact hq)
+      obtain ⟨r'', h3, h4⟩ := this
+      refine ⟨r'', h3, ?_⟩
+      rw [show pos + p + 1 + q = pos + (p + 1) + q by omega, ← List.drop_drop]
+      exact h4
+    | stop =>
+      rw [hs] at happ; simp only at happ; rw [happ]
+      simp only
+      exact ⟨r, 0, rfl, by simpa using hrel, by simp⟩
+    | windowEnd =>
+      rw [hs] at happ; simp only [Nat.zero_add] at happ
+      obtain ⟨r0, ha, hrel0, hw0, hs0, hc0⟩ := hrel.advance r.win.length (Nat.le_refl _)
+      simp only [ha]
+      have hw0' : r0.win = [] := by rw [hw0]; simp
+      have hdd : d.drop r.win.length = r.src.rest := by rw [hd]; simp
+      rw [hdd] at hrel0
+      rcases hrel0.fill with ⟨rio, hf, _, hnn⟩ | ⟨hf, h1, h2⟩ | ⟨he0, r1, hf, hrel1, _⟩ | ⟨hne, r1, k, hf, hrel1, hk, hw1, hr1, hc1, hnf1⟩
+      · exact absurd (by rw [hs0]; exact hnf) hnn
+      · exfalso; rw [hw0'] at h2; simp at h2; exact h1 h2
+      · rw [hf]; simp only
+        have he : r.src.rest = [] := by rw [← hs0]; exact he0
+        rw [happ, he]; simp only [skipUScan]
+        refine ⟨r1, rfl, ?_⟩
+        rw [he] at hrel1
+        have : d.length = r.win.length := by rw [hd, he]; simp
+        rw [this]; exact hrel1
+      · rw [hf]; simp only
+        rw [hs0] at hk hr1
+        have hl1 : r1.src.rest.length ≤ m := by rw [hr1]; simp; omega
+        have hih := ih r1 (pos + r.win.length) bom r.src.rest n f hl1 hrel1 (hnf1 (by rw [hs0]; exact hnf))
+          (by rw [hc1, hc0]; exact hcap) (by omega)
+        unfold SkipUOut at hih
+        rw [happ]
+        have hsh := skipUScan_shift r.src.rest 0 r.win.length
+        simp only [Nat.zero_add] at hsh
+        rw [hsh]
+        cases hx : skipUScan r.src.rest 0 with
+        | open_ p =>
+          rw [hx] at hih
+          simp only [shiftU] at hih ⊢
+          intro q hq
+          have e1 : pos + (p + r.win.length) + 1 = pos + r.win.length + p + 1 := by omega
+          have e2 : d.drop (p + r.win.length + 1) = r.src.rest.drop (p + 1) := by
+            rw [hd, show p + r.win.length + 1 = r.win.length + (p + 1) by omega, ← List.drop_drop]; simp
+          rw [e1, e2] at hq
+          obtain ⟨r', h3, h4⟩ := hih q hq
+          refine ⟨r', h3, ?_⟩
+          have e3 : pos + (p + r.win.length) + 1 + q = pos + r.win.length + p + 1 + q := by omega
+          have e4 : d.drop (p + r.win.length + 1 + q) = r.src.rest.drop (p + 1 + q) := by
+            rw [hd, show p + r.win.length + 1 + q = r.win.length + (p + 1 + q) by omega, ← List.drop_drop]; simp
+          rw [e3, e4]; exact h4
+        | stop =>
+          rw [hx] at hih
+          simp only [shiftU] at hih ⊢
+          obtain ⟨r', j, h3, h4, h5⟩ := hih
+          refine ⟨r', r.win.length + j, h3, ?_, ?_⟩
+          · have e4 : d.drop (r.win.length + j) = r.src.rest.drop j := by rw [hd, ← List.drop_drop]; simp
+            rw [show pos + (r.win.length + j) = pos + r.win.length + j by omega, e4]; exact h4
+          · intro x hx'
+            rw [hd, List.take_append] at hx'
+            simp at hx'
+            rcases hx' with hx' | hx'
+            · -- the whole window was blank
+              exact skipUScan_windowEnd_blank hs x (List.mem_of_mem_take hx')
+            · exact h5 x hx'
+        | windowEnd =>
+          rw [hx] at hih
+          simp only [shiftU] at hih ⊢
+          obtain ⟨r', h3, h4⟩ := hih
+          refine ⟨r', h3, ?_⟩
+          have : pos + d.length = pos + r.win.length + r.src.rest.length := by rw [hd]; simp; omega
+          rw [this]; exact h4
+
+/-- **C09 (text), `skip_unquoted_value`.**  Exact condition: the container is skipped iff only blank bytes (space, tab,
+LF, CR, `;`) lie between the scalar just read and a `{` (`skipUScan d 0 = open_ p`, `p` = number of those blanks).
+Then — under every fault-free schedule, slice reader or buffer ≥ 3 — the reader lands exactly after the close that
+token counting finds (`balancedSkip` on the bytes after the `{`).  In every other case nothing but blanks is consumed:
+in particular a `#` comment between the scalar and the `{` stops it (the recorded finding `skipu-comment-before-brace`),
+and the container is then NOT skipped. -/
+theorem C09_text_skipu (r : Reader) (pos : Nat) (bom : Bom) (d : Bytes) (n fuel : Nat)
+    (hrel : Rel r pos bom d) (hnf : NoFaults r.src.sched) (hcap : r.cap = 0 ∨ 3 ≤ r.cap)
+    (hfuel : r.src.rest.length + 1 ≤ fuel) :
+    SkipUOut (skipUnquotedValue fuel r) pos bom d n :=
+  skipU_spec _ r pos bom d n fuel (Nat.le_refl _) hrel hnf hcap hfuel
+
+-- ` \n{ 1 } b`: two blanks, then the container
+example : skipUScan [32, 10, 123, 32, 49, 32, 125, 32, 98] 0 = .open_ 2 := by rfl
+-- ` #k\n{ 1 } b`: the comment stops it
+example : skipUScan [32, 35, 107, 10, 123, 32, 49, 32, 125, 32, 98] 0 = .stop := by rfl
+
+end Jomini.TextReader
